@@ -16,6 +16,19 @@ def special_docs(rng):
         r += [N("PASTE @me") for _ in range(uses)]
         r += [N("GET /a", [N("200 any")])]
         out.append(r)
+    # an ENUM brought by a PASTE that is NOT at the root of the tree as written: after an unbraced
+    # GET / 200 run (the PASTE hangs below the method, its ENUM climbs back to the root), after INFO
+    # and SERVER, and through a nested macro; with and without a schema that uses the enum
+    enm = lambda: N("MACRO @names", [N('ENUM @catName\n["Tom", "Tim"]')], explicit=True)
+    user = lambda: N("GET /cats", [N('200\n{\n  "name": "Tom" // {enum: @catName}\n}')])
+    for with_user in (False, True):
+        tail = [user()] if with_user else []
+        out.append(base() + [N("GET /dogs", [N("200 any"), N("PASTE @names")])] + tail + [enm()])
+        out.append(base() + [enm(), N("URL /u", [N("GET", [N("200 any")]), N("PASTE @names")])] + tail)
+        out.append(base() + [N("INFO", [N('Title "T"'), N("PASTE @names")])] + tail + [enm()])
+        out.append(base() + [N("SERVER @s // srv", [N('BaseUrl "https://h/"'), N("PASTE @names")]), enm()] + tail)
+        out.append(base() + [N("PASTE @outer")] + tail + [N("MACRO @outer", [N("PASTE @names")], explicit=True), enm()])
+        out.append(base() + [N("MACRO @outer", [N("GET /o", [N("200 any")]), N("PASTE @names")], explicit=True), enm(), N("PASTE @outer")] + tail)
     out.append(base() + [N("GET /a", [N("PASTE @resp")]), N("MACRO @resp", [N("200 any"), N("404 any")], explicit=True)])
     # a PASTE written directly after a directive that cannot hold a PASTE itself but can hold what the
     # macro brings (TAG, JSON-RPC Method): the body is resolved from the same context as in-place text
@@ -264,7 +277,7 @@ def run(tier, out, model_ok, proof):
     out.coverage.update({
         "evaluations": len(cases),
         "distinct_nontrivial": sum(1 for _, r, _ in pairs if any(n.text.startswith("PASTE") for n in treecorr_flat(r))),
-        "rule": "structured valid documents with sibling runs abstracted into (nested, explicit-body) MACROs + hand-picked shapes (macro with ENUM/TYPE used 0/1/2 times, use before definition, undefined macro, cycles of length 1-3, cyclic but unused, a macro pasted twice by another, diamonds) + random acyclic macro graphs with reuse + arbitrary PASTE graphs (chains into cycles, any declaration order) + macro bodies that are runs of PASTEs where a later one supplies the children of the directive the previous one ended with; each macro form is built and compared with its inlined form (reference inliner lib/meta.py) and its expanded forest / macro table / enum registrations are compared with the extracted Coq model; non-trivial = contains a PASTE",
+        "rule": "structured valid documents with sibling runs abstracted into (nested, explicit-body) MACROs + hand-picked shapes (macro with ENUM/TYPE used 0/1/2 times, an ENUM brought by a PASTE below a method / URL / INFO / SERVER or through a nested macro, with and without a schema that uses it, use before definition, undefined macro, cycles of length 1-3, cyclic but unused, a macro pasted twice by another, diamonds) + random acyclic macro graphs with reuse + arbitrary PASTE graphs (chains into cycles, any declaration order) + macro bodies that are runs of PASTEs where a later one supplies the children of the directive the previous one ended with; each macro form is built and compared with its inlined form (reference inliner lib/meta.py) and its expanded forest / macro table / enum registrations are compared with the extracted Coq model; non-trivial = contains a PASTE",
         "samples": [bytes.fromhex(c["files"]["root.jst"]).decode("latin1")[:300] for c in cases[:2]],
         "traces_validated_against_impl": (len([c for c in cases if c["id"].startswith("m")]) - len(mism)) if model_ok else 0,
         "accepted_pairs": acc, "rejected": rej,
